@@ -481,6 +481,84 @@ func EscapeOrderRule(w *World, role string, r *Result, rule string) {
 			}
 		}
 	}
+	// every way out applies every replacement of the chain, unless the text to be replaced is
+	// known to be absent on that way (a test strings.Contains(value, old) that failed)
+	if bad == "" {
+		type path struct {
+			olds map[string]bool
+			at   *ssa.BasicBlock
+		}
+		var chains func(v ssa.Value, at *ssa.BasicBlock, d int) []path
+		chains = func(v ssa.Value, at *ssa.BasicBlock, d int) []path {
+			if d > 8 {
+				return nil
+			}
+			switch x := v.(type) {
+			case *ssa.Call:
+				for _, rp := range reps {
+					if rp.call == x {
+						var out []path
+						for _, p := range chains(x.Call.Args[0], at, d+1) {
+							n := map[string]bool{rp.old: true}
+							for k := range p.olds {
+								n[k] = true
+							}
+							out = append(out, path{n, p.at})
+						}
+						return out
+					}
+				}
+			case *ssa.Phi:
+				var out []path
+				for i, e := range x.Edges {
+					out = append(out, chains(e, x.Block().Preds[i], d+1)...)
+				}
+				return out
+			}
+			return []path{{map[string]bool{}, at}}
+		}
+		absent := func(old string, at *ssa.BasicBlock) bool {
+			for d := at; d != nil; d = d.Idom() {
+				par := d.Idom()
+				if par == nil {
+					break
+				}
+				c, neg := condOf(par)
+				call, ok := c.(*ssa.Call)
+				if !ok || calleeName(call) != "strings.Contains" || len(call.Call.Args) != 2 || len(par.Succs) != 2 {
+					continue
+				}
+				k, ok := call.Call.Args[1].(*ssa.Const)
+				if !ok || k.Value == nil || constStringVal(k) != old {
+					continue
+				}
+				if _, isParam := call.Call.Args[0].(*ssa.Parameter); !isParam {
+					continue
+				}
+				notContained := par.Succs[1]
+				if neg {
+					notContained = par.Succs[0]
+				}
+				if (notContained == at || notContained.Dominates(at)) && len(notContained.Preds) == 1 {
+					return true
+				}
+			}
+			return false
+		}
+		for _, b := range fn.Blocks {
+			ret, ok := b.Instrs[len(b.Instrs)-1].(*ssa.Return)
+			if !ok || len(ret.Results) == 0 {
+				continue
+			}
+			for _, p := range chains(ret.Results[0], b, 0) {
+				for _, rp := range reps {
+					if !p.olds[rp.old] && !absent(rp.old, p.at) {
+						bad = fmt.Sprintf("on one way out of the literal conversion the replacement %q → %q is not applied, and nothing shows that the text holds no %q on that way: such a literal reaches the script unescaped", rp.old, rp.new, rp.old)
+					}
+				}
+			}
+		}
+	}
 	if bad != "" {
 		r.Bad(rule, key, w.Pos(fn.Pos()), bad)
 	} else {
